@@ -253,6 +253,8 @@ def make_jobs(pid, prop, tier, seed_base, bins, bdir, only=None):
             shutil.rmtree(stats, ignore_errors=True)
             cmd = [binp, "-test.run", "^" + test + "$", "-test.count=1", "-test.v", "-test.timeout", "300s",
                    "-rapid.failfile=" + os.path.join(rdir, fn), "-rapid.checks=0", "-rapid.seed=1", "-rapid.nofailfile"]
+            if tdef.get("steps"):  # the Repeat coin depends on it: a fail file only replays under the value it was recorded with
+                cmd += ["-rapid.steps=%d" % tdef["steps"]]
             env = {"VERIF_STATS_DIR": "", "VERIF_KNOWN": known, "VERIF_TIER": tier, "VERIF_SEED_EFFECTIVE": "1",
                    "VERIF_REPO": REPO, "VERIF_SCALE": "1", "VERIF_CHECKS": "1"}
             jobs.append({"unit": uname, "test": test, "shard": 0, "seed": 0, "cmd": cmd, "cwd": cwd, "stats": stats,
@@ -340,11 +342,13 @@ def write_evidence(pid, prop, tier, seed, units, wall, violations, inconclusive,
 
 def do_replay(pid, prop, path, bdir):
     base = os.path.basename(path)
-    m = re.match(r"(.+?)__(.+?)__seed(\d+)\.(fail|log)$", base)
+    m = re.match(r"(.+?)__(.+?)__(.+)\.(fail|log)$", base)
     if not m:
         log("cannot parse replay file name", base)
         return 2
-    uname, test, seed, kind = m.group(1), m.group(2), int(m.group(3)), m.group(4)
+    uname, test, kind = m.group(1), m.group(2), m.group(4)
+    ms = re.match(r"seed(\d+)$", m.group(3))
+    seed = int(ms.group(1)) if ms else 1
     unit = next((u for u in prop["units"] if u["name"] == uname), None)
     if unit is None:
         log("unknown unit", uname)
@@ -364,13 +368,19 @@ def do_replay(pid, prop, path, bdir):
     env = dict(os.environ)
     env.update({"VERIF_KNOWN": known, "VERIF_TIER": "quick", "VERIF_SEED_EFFECTIVE": str(seed), "VERIF_REPO": REPO})
     if kind == "fail":
-        cmd += ["-rapid.failfile=" + os.path.abspath(path), "-rapid.checks=1", "-rapid.seed=%d" % seed, "-rapid.nofailfile"]
+        cmd += ["-rapid.failfile=" + os.path.abspath(path), "-rapid.checks=0", "-rapid.seed=%d" % (seed or 1), "-rapid.nofailfile"]
+        if tdef and tdef.get("steps"):
+            cmd += ["-rapid.steps=%d" % tdef["steps"]]
     else:
         checks = (tdef or {}).get("quick", 100)
         cmd += ["-rapid.checks=%d" % checks, "-rapid.seed=%d" % seed, "-rapid.nofailfile"]
         if tdef and tdef.get("steps"):
             cmd += ["-rapid.steps=%d" % tdef["steps"]]
     p = subprocess.run(cmd, cwd=cwd, env=env, stdout=subprocess.PIPE, stderr=subprocess.STDOUT, text=True, errors="replace")
+    i = p.stdout.find("VERIF-SIG[")
+    if i >= 0 and len(p.stdout) - i > 6000:
+        log(p.stdout[max(0, i - 500): i + 3000])
+        log("[...]")
     log(p.stdout[-6000:])
     if p.returncode != 0:
         log("VIOLATION property=%s replay=%s" % (pid, path))
